@@ -62,6 +62,12 @@ BUDGET = {"quick": 120, "thorough": 900}
 EXHAUSTIVE = {"quick": False, "thorough": False}
 
 BW_FIXED = [2e9, 3e9, 4e9, 10e9, 25e9]
+# documented positional order of the anchored functions (signatures of /repo HEAD 8caea4c, recorded here as literals)
+POSITIONAL = {
+    "MZM": ["op_input", "el_input", "bias", "Vpi", "loss_dB", "ER_dB", "pol", "BW"],
+    "PM": ["op_input", "el_input", "Vpi"],
+    "LASER": ["t", "p", "lw", "rin", "df"],
+}
 SCALAR_KINDS = ["int", "float", "bool", "npfloat"]
 ARRAY_KINDS = ["ndarray", "ndarray_int", "list", "tuple", "str", "esig", "esig_noise"]
 WIRE_KIND = {"int": "s", "float": "s", "bool": "s", "npfloat": "s", "ndarray": "a", "ndarray_int": "a",
@@ -369,9 +375,22 @@ def gen_cases(rng, tier):
         cases.append({"kind": "laser", "field": None, "sps": sps, "R": R, "n": n, "tdtype": tdtype,
                       "p": rng.choice([0.0, 10.0, -3.0, 30.0, 33.0, rng.uniform(-20, 20)]), "lw": lw, "rin": rin, "df": df,
                       "np_seed": rng.randrange(1 << 31), "calls": []})
+    # LASER call histories inside one process: same df and sample count under different time steps (and back), same grid with
+    # another df, same carrier with another power / with phase noise — every call under the exact-field and spectral-peak clauses
+    for _ in range(8 if tier == "quick" else 60):
+        n = rng.choice([64, 128, 256, 2048] if tier == "quick" else [64, 256, 1024, 2048, 4096])
+        R = rng.choice([1e9, 10e9])
+        spss = rng.sample([4, 8, 16, 32], rng.choice([2, 3]))
+        fmin = min(spss) * R
+        df = rng.choice([rng.uniform(-0.4, 0.4) * fmin, rng.randrange(-(n // 4), n // 4 + 1) * fmin / n])
+        steps = [{"sps": a, "R": R, "df": df, "p": rng.choice([0.0, 10.0, -3.0]), "lw": None} for a in spss]
+        steps.append(dict(steps[0], p=7.0))                                   # back to the first grid, other power
+        steps.append(dict(steps[0], df=-df if df else 0.1 * fmin))            # same grid, other offset
+        steps.append(dict(steps[1], lw=rng.choice([None, 1e-6 * fmin])))      # second grid again (narrow linewidth or none)
+        cases.append({"kind": "laser_hist", "field": None, "n": n, "steps": steps, "np_seed": rng.randrange(1 << 31), "calls": []})
     rng.shuffle(cases)
     # histories first: a violation that depends on what the process did before is then first reported on a self-contained case
-    cases.sort(key=lambda c: c["kind"] != "mzm_bw_hist")
+    cases.sort(key=lambda c: c["kind"] not in ("mzm_bw_hist", "laser_hist"))
     return cases
 
 
@@ -392,6 +411,49 @@ def _drive_bytes(obj):
         return tuple((str(np.asarray(a).dtype), np.shape(a), np.asarray(a).tobytes()) if a is not None else None
                      for a in (obj.signal, obj.noise))
     return repr(obj)
+
+
+def _dumps_equal(a, b):
+    """two result records are the same outcome: same error, or bit-identical signal / noise arrays (NaN == NaN)"""
+    if a.get("status") != b.get("status"):
+        return False
+    if a.get("status") == "err":
+        return a.get("err") == b.get("err")
+    if a.get("status") != "ok":
+        return True
+    for part in ("sig", "noise"):
+        if (a.get(part) is None) != (b.get(part) is None):
+            return False
+        if a.get(part) is not None and not np.array_equal(np.array(a[part], dtype=float), np.array(b[part], dtype=float), equal_nan=True):
+            return False
+    return a.get("shape") == b.get("shape")
+
+
+def _record(fn, *args, **kw):
+    try:
+        with time_limit(20):
+            y = fn(*args, **kw)
+        return {"status": "ok", **F.dump_signal(y)}
+    except Timeout as e:
+        return {"status": "timeout", "detail": str(e)}
+    except Exception as e:  # noqa
+        return {"status": "err", "err": exc_enum(e), "detail": repr(e)[:200]}
+
+
+def _positional_twin(call, x, main, bw=None):
+    """the same call with every argument passed POSITIONALLY in the documented order (literal list POSITIONAL, not read from the
+    code under test); None when the outcome is identical to the keyword call, else a description"""
+    import opticomlib.devices as dev
+    vals = {"op_input": x, "el_input": build_drive(call["drive"]), "Vpi": call["Vpi"]}
+    if call["dev"] == "mzm":
+        vals.update(bias=call["bias"], loss_dB=call["ld"], ER_dB=call["er"], pol=call["pol"], BW=bw)
+        names = POSITIONAL["MZM"] if bw is not None else POSITIONAL["MZM"][:-1]
+        tw = _record(dev.MZM, *[vals[k] for k in names])
+    else:
+        tw = _record(dev.PM, *[vals[k] for k in POSITIONAL["PM"]])
+    if _dumps_equal(main, tw):
+        return None
+    return f"keyword call: {str({k: main.get(k) for k in ('status', 'err')})}, positional call {('differs in the returned arrays' if tw.get('status') == 'ok' == main.get('status') else str({k: tw.get(k) for k in ('status', 'err', 'detail')})[:160])}"
 
 
 def _run_call(call, x, objs=None, mon=None):
@@ -455,6 +517,29 @@ def _run_laser(case, res):
     finally:
         np.random.normal = orig
     res["spied"] = spied
+    # positional twin (documented order t, p, lw, rin, df) under the same numpy seed
+    np.random.seed(case["np_seed"])
+    vals = {"t": t, "p": case["p"], "lw": case["lw"], "rin": case["rin"], "df": case["df"]}
+    tw = _record(LASER, *[vals[k] for k in POSITIONAL["LASER"]])
+    if not _dumps_equal(res["results"][0], tw):
+        res["results"][0]["positional"] = f"keyword call {res['results'][0].get('status')}, positional call {tw.get('status')} {tw.get('err', '')}: outcomes differ"
+
+
+def _laser_step_case(case, i):
+    st = case["steps"][i]
+    return {"kind": "laser", "field": None, "sps": st["sps"], "R": st["R"], "n": case["n"], "tdtype": "float64", "p": st["p"],
+            "lw": st["lw"], "rin": None, "df": st["df"], "np_seed": case["np_seed"] + i, "calls": []}
+
+
+def _run_laser_hist(case, res):
+    from opticomlib.typing import gv
+    res["steps"] = []
+    for i in range(len(case["steps"])):
+        gv.clean()
+        st = {"status": "ok", "i": i}
+        _run_laser(_laser_step_case(case, i), st)
+        res["steps"].append(st)
+    res["results"] = [st["results"][0] for st in res["steps"]]
 
 
 def _fresh_bpf(y, bw, fs, order=4):
@@ -508,6 +593,7 @@ def _run_mzm_bw(case, res):
         _, r = run(dev.MZM, x, d, BW=case["BW"], **kw)
         spy.on = False
         r["drive_modified"] = _drive_bytes(d) != before
+        r["positional"] = _positional_twin(call, x, r, bw=case["BW"])
         res["results"] = [r]
         res["params"], res["remarks"] = c11._params(spy)
         y0, r0 = run(dev.MZM, x, d, **kw)
@@ -526,6 +612,9 @@ def run_impl(case):
             warnings.simplefilter("ignore")
             if case["kind"] == "laser":
                 _run_laser(case, res)
+                return res
+            if case["kind"] == "laser_hist":
+                _run_laser_hist(case, res)
                 return res
             if case["kind"] == "mzm_bw":
                 _run_mzm_bw(case, res)
@@ -557,6 +646,8 @@ def run_impl(case):
                     outs.append(None)
                 if len(objs) < len(res["results"]):
                     objs.append(None)          # the drive could not even be built
+                if call.get("drive_ref") is None and call.get("drive_sum") is None:
+                    res["results"][-1]["positional"] = _positional_twin(call, xin, res["results"][-1])
             # input must not have been modified
             after = F.dump_signal(x)
             if after["sig"] != case["field"]["sig"] and case["field"]["dtype"] == "complex":
@@ -609,6 +700,8 @@ def model_requests(case, res):
         return reqs
     if case["kind"] == "mzm_bw_hist":
         return [r for st in res.get("steps", []) for r in model_requests(dict(case, kind="mzm_bw"), dict(st, status="ok"))]
+    if case["kind"] == "laser_hist":
+        return [r for i, st in enumerate(res.get("steps", [])) for r in model_requests(_laser_step_case(case, i), st)]
     if case["kind"] == "mzm_bw":
         p = res.get("params")
         call = case["calls"][0]
@@ -697,6 +790,14 @@ def compare(case, res, reqs, replies):
                 s = res["spied"][k]; k += 1
                 if s["loc"] != 0.0 or not (abs(s["scale"] - s_rin) <= 1e-12 * abs(s_rin)) or s["size"] != case["n"]:
                     out.append(f"laser: RIN draw normal({s['loc']},{s['scale']},{s['size']}) but model sigma {s_rin}")
+        return out
+    if case["kind"] == "laser_hist":
+        pos = 0
+        for i, st in enumerate(res.get("steps", [])):
+            k = len(model_requests(_laser_step_case(case, i), st))
+            out += [f"history call {i} (sps={case['steps'][i]['sps']}, df={case['steps'][i]['df']:.6g}): " + d
+                    for d in compare(_laser_step_case(case, i), st, reqs[pos:pos + k], replies[pos:pos + k])]
+            pos += k
         return out
     if case["kind"] == "mzm_bw_hist":
         for st, rq, rep in zip(res.get("steps", []), reqs, replies):
@@ -866,6 +967,15 @@ def _oracle_laser(case, res):
         return v
     if case["rin"] is None:
         pw = sum(np.abs(e) ** 2 for e in rows)
+        # exact field of a laser without phase noise: sqrt(P)*exp(j 2 pi df t) on the time grid that was passed
+        if case["lw"] is None and n and len(rows) == 1:
+            tt = np.array(res["t"], dtype=float)
+            th = 2 * math.pi * (case["df"] or 0.0) * tt
+            ref = math.sqrt(P) * np.exp(1j * th)
+            frel = 2e-6 * (1.0 + float(np.max(np.abs(th)))) if case.get("tdtype") == "float32" else 1e-9 * (1.0 + 1e-7 * float(np.max(np.abs(th))))
+            if not F.close(rows[0], ref, math.sqrt(P), rel=frel):
+                v.append(("C06:laser-field", f"field is not sqrt(P)*exp(j 2 pi df t) on the given time grid: max diff {F._maxdiff(rows[0], ref):.3e} "
+                                             f"(sqrt(P)={math.sqrt(P):.4g}, df={case['df']}, step {res.get('tstep')})"))
         # float32 time argument: the result is a single-precision array, |E|^2 = P to single-precision rounding (8 eps32)
         ptol = 1e-6 if case.get("tdtype") == "float32" else 1e-12
         if n and not np.all(np.abs(pw - P) <= ptol * P):
@@ -943,6 +1053,18 @@ def oracle(case, res):
             # obey exp(j*pi*u'/Vpi) for another u': the operands of the statement are the caller's u, a, b
             v.append((f"C06:drive-modified:{c['dev']}", f"{c['dev'].upper()} altered its drive argument ({c['drive']['kind']}): "
                       f"given {c['drive']['v'][:4]}..., afterwards it holds {r.get('drive_after')}"))
+    for i, r in enumerate(res.get("results", [])):
+        if r.get("positional"):
+            fn = "LASER" if case["kind"].startswith("laser") else ("MZM" if case["calls"][min(i, len(case["calls"]) - 1)]["dev"] == "mzm" else "PM")
+            v.append((f"C06:positional:{fn}", f"{fn} called with its arguments by position in the documented order {POSITIONAL[fn]} "
+                      f"does not give what the keyword call gives: {r['positional']}"))
+    if case["kind"] == "laser_hist":
+        for i, st in enumerate(res.get("steps", [])):
+            sc = case["steps"][i]
+            tag = (f"call {i} of the LASER history {[(q['sps'], q['df'], q['p']) for q in case['steps']]} "
+                   f"(N={case['n']}, sps={sc['sps']}, R={sc['R']:.3g}, df={sc['df']:.6g}): ")
+            v += [(sig, tag + msg) for sig, msg in _oracle_laser(_laser_step_case(case, i), st)]
+        return v
     if case["kind"] == "laser":
         return v + _oracle_laser(case, res)
     if case["kind"] == "mzm_bw":
@@ -1013,7 +1135,9 @@ def oracle(case, res):
 
 def features(case, res):
     f = ["kind=" + case["kind"], "status=" + str(res.get("status"))]
-    if case["kind"] == "laser":
+    if case["kind"] == "laser_hist":
+        f.append(f"laser-history={len(case['steps'])}")
+    elif case["kind"] == "laser":
         f += [f"laser:lw={'y' if case['lw'] is not None else 'n'}", f"laser:rin={'y' if case['rin'] is not None else 'n'}",
               f"laser:df={'y' if case['df'] is not None else 'n'}", f"N={case['n']}", "laser:t=" + case.get("tdtype", "float64")]
     else:
@@ -1040,6 +1164,8 @@ def nontrivial_key(case, res):
     rs = res.get("results", [])
     if not rs or any(r["status"] != "ok" for r in rs):
         return None
+    if case["kind"] == "laser_hist":
+        return ("laser_hist", case["n"], tuple((q["sps"], q["R"], q["df"], q["p"], q["lw"]) for q in case["steps"]))
     if case["kind"] == "laser":
         return ("laser", case["n"], case["lw"] is not None, case["rin"] is not None, case["df"], case["p"], case.get("tdtype")) if case["n"] >= 2 else None
     fl = case["field"]
